@@ -4,7 +4,7 @@ open Lean Pog Pog.Drv
 namespace Pog.Drv
 
 def registryFns : List String :=
-  ["isSharedCore", "registryRun", "registryTrace", "aliasName", "aliasBase", "specCodes",
+  ["isSharedCore", "isSharedCoreFor", "registryRun", "registryTrace", "aliasName", "aliasBase", "specCodes",
    "isErrorCode", "isClientError", "isServerError"]
 
 private def getOpt (f : Json → Except String α) (j : Json) : Except String (Option α) :=
@@ -28,6 +28,10 @@ def registryRun (f : String) (a : Array Json) : Except String Json := do
   | "isSharedCore" =>
     let root ← getOpt getStrs (← argN a 0)
     pure (Json.bool (isSharedCore root (← getStrs (← argN a 1))))
+  | "isSharedCoreFor" =>
+    let root ← getOpt getStrs (← argN a 0)
+    let client ← getOpt getStrs (← argN a 2)
+    pure (Json.bool (isSharedCoreFor root (← getStrs (← argN a 1)) client))
   | "registryRun" => pure (jstate (run (← getList getGen (← argN a 0))))
   | "registryTrace" => pure (jlist jstate (trace State.empty (← getList getGen (← argN a 0))))
   | "aliasName" => pure (jstr (aliasName (← getNat (← argN a 0))))
